@@ -37,6 +37,7 @@ REGISTRY = dict(
               "into the real package + TLC-enumerated grammar mutations for robustness")
 
 SPECDIR = "FieldMask"
+WORKERS = int(os.environ.get("VERIF_TLC_WORKERS", "0")) or None      # None = all cores
 
 CFG = """SPECIFICATION Spec
 CONSTANTS
@@ -53,10 +54,12 @@ CHECK_DEADLOCK FALSE
 SEM_TIERS = {
     "quick": [dict(root="R", alphabet="aFull", maxlen=2, pims="cPimsR"),
               dict(root="R", alphabet="aTiny", maxlen=3, pims="cPimsR"),
+              dict(root="R", alphabet="aBig", maxlen=2, pims="cPimsR"),
               dict(root="N", alphabet="aNeg", maxlen=2, pims="cPimsN")],
     "thorough": [dict(root="R", alphabet="aFull", maxlen=2, pims="cPimsR"),
                  dict(root="R", alphabet="aCore", maxlen=3, pims="cPimsR"),
                  dict(root="R", alphabet="aSmall", maxlen=4, pims="cPimsR"),
+                 dict(root="R", alphabet="aBig", maxlen=3, pims="cPimsR"),
                  dict(root="N", alphabet="aNeg", maxlen=3, pims="cPimsN")],
 }
 
@@ -101,7 +104,7 @@ def path_features(paths):
     return f
 
 
-def covering_star(key, pos_steps, n):
+def covering_star(key, pos_steps, n, big=None):
     """is the position prefix pos_steps[:n] covered by a complete path of the set that ends in '*'?"""
     for p in key:
         if len(p) <= n and p and p[-1]["k"] == "*":
@@ -109,7 +112,7 @@ def covering_star(key, pos_steps, n):
             for a, b in zip(p, pos_steps[:len(p)]):
                 if a["k"] == "*":
                     continue
-                if a["k"] != b[0] or (a["k"] == "s" and a["s"] != b[1]) or (a["k"] != "s" and str(a["n"]) != b[1]):
+                if a["k"] != b[0] or (a["k"] == "s" and a["s"] != b[1]) or (a["k"] != "s" and (big or {}).get(str(a["n"]), str(a["n"])) != b[1]):
                     ok = False
                     break
             if ok:
@@ -128,7 +131,7 @@ class Sem:
     def generate(self):
         ctx = self.ctx
         cfg = CFG % dict(self.spec, fixes=", ".join('"%s"' % f for f in sorted(self.fixes)))
-        r = ctx.tlc(SPECDIR, "MC_FieldMask", "gen.cfg", files={"gen.cfg": cfg}, timeout=3000,
+        r = ctx.tlc(SPECDIR, "MC_FieldMask", "gen.cfg", files={"gen.cfg": cfg}, timeout=3000, workers=WORKERS,
                     label="MC_FieldMask[%s]" % self.tag)
         for s in r["lines"]:
             if s.startswith("META "):
@@ -225,7 +228,7 @@ class Sem:
                     if {e_ch, o_ch} == {"A", "a"}:
                         query = "All"
                     feat = "plain"
-                    if c["m"] == "B" and covering_star(c["key"], walks[i], j + 1):
+                    if c["m"] == "B" and covering_star(c["key"], walks[i], j + 1, meta.get("bigints")):
                         feat = "black-terminal-star"
                     elif "struct-star" in feats:
                         feat = "struct-star"
@@ -466,7 +469,7 @@ def robust(ctx, harness, qfile):
                           tokens=", ".join('"%s"' % t for t in spec["tokens"]),
                           tokens2=", ".join('"%s"' % t for t in spec["tokens2"]),
                           deep=", ".join(map(str, spec["deep"])))
-        r = ctx.tlc(SPECDIR, "FieldMaskRobust", "r.cfg", files={"r.cfg": cfg}, timeout=3000,
+        r = ctx.tlc(SPECDIR, "FieldMaskRobust", "r.cfg", files={"r.cfg": cfg}, timeout=3000, workers=WORKERS,
                     label="FieldMaskRobust[%s,%d]" % (spec["spec"], spec["maxmut"]))
         cases = ctx.tlc_cases(r, prefix="RCASE ")
         if not cases:
@@ -574,6 +577,9 @@ def vacuity(sems):
         "answers n, a and A": any("n" in d and "a" in d and "A" in d for d in dec),
         "a positive and a negative PathInMask answer": any(0 in c["ap"] and 1 in c["ap"] for c in ok),
         "a root with a negative field id": any(s.spec["root"] == "N" for s in sems),
+        "a key beyond 32 bits in a path and in a walk": any(
+            any("4294967298" in s.meta["alphabet"][i - 1] for i in c["h"]) for s in sems for c in s.cases if c["oa"] == "ok")
+            and any(st[1] == "4294967298" for s in sems for w in s.meta["walks"] for st in w),
         "every error kind": {k for c in cs for k in c["ek"]} >= {"malformed", "unknown", "kind", "keykind"},
     }
     for k, v in need.items():
